@@ -134,7 +134,7 @@ class Program:
         return c
 
 
-def load_program(repo=REPO, ndebug=True, witness_units=("instantiate.cpp",), verbose=False, cache=True):
+def load_program(repo=REPO, ndebug=True, witness_units=("instantiate.cpp",), verbose=False, cache=True, inline_helpers=True):
     ensure_extractor()
     t0 = time.time()
     flags = compile_flags(repo, ndebug)
@@ -173,6 +173,7 @@ def load_program(repo=REPO, ndebug=True, witness_units=("instantiate.cpp",), ver
         return src, out, rc, err
 
     prog = Program()
+    raw = {}
     prog.config = "NDEBUG" if ndebug else "DEBUG"
     with ThreadPoolExecutor(max_workers=16) as ex:
         results = list(ex.map(work, jobs))
@@ -191,8 +192,15 @@ def load_program(repo=REPO, ndebug=True, witness_units=("instantiate.cpp",), ver
         for g in d.get("globals", []):
             prog.globals.setdefault(g["name"], g)
         for f in d["functions"]:
-            if f["sig"] not in prog.functions:
-                prog.functions[f["sig"]] = Function(f, prog)
+            raw.setdefault(f["sig"], f)
+    # helpers the rule set has never seen are spliced into their callers (engine/inline.py)
+    from . import inline
+    prog.inlined = []
+    gone = inline.inline_program(raw, log=prog.inlined) if inline_helpers else set()
+    for sig, f in raw.items():
+        if sig in gone:
+            continue
+        prog.functions[sig] = Function(f, prog)
     prog.t_extract = time.time() - t0
     # keep the cache small: the current key plus the two most recently used others
     try:
